@@ -620,7 +620,16 @@ func cmdScan(args []string) int {
 		}
 		return false
 	}
+	only := map[string]bool{}
+	for _, id := range strings.Split(os.Getenv("DVERIF_SCAN_ONLY"), ",") {
+		if id != "" {
+			only[id] = true
+		}
+	}
 	for _, id := range rules.All() {
+		if len(only) > 0 && !only[id] {
+			continue
+		}
 		rs := rules.Get(id)
 		func() {
 			defer func() {
